@@ -604,8 +604,9 @@ func (V *Verifier) serviceTypes() map[string]*types.Named {
 }
 
 // registryGet is the caller-side contract of codec.Get:
-//   ensures \result.1 ==> Algorithm(\result.0) == algorithm          (every entry is filed under its own name, C19)
-//   assumption registry_default: the built-in services are registered under their names when frames are encoded.
+//
+//	ensures \result.1 ==> Algorithm(\result.0) == algorithm          (every entry is filed under its own name, C19)
+//	assumption registry_default: the built-in services are registered under their names when frames are encoded.
 func (x *Exec) registryGet(st *State, args []Value) Value {
 	alg := args[0].(VStr).T
 	ok := FreshBool("registered")
